@@ -268,3 +268,113 @@ func VerifC08_V1FaultDuringRotation() {
 		verif.Assert(verifContains(after, k1), "old-key-survives-follow-up"+scen)
 	}
 }
+
+func verifStoreIn(st Storage, private, public string, master string) (*KeyStore, keystore.KeyEncryptor) {
+	enc, err := keystore.NewSCellKeyEncryptor(verif.Bytes(master, 32))
+	if err != nil {
+		panic("encryptor")
+	}
+	b := NewCustomFilesystemKeyStore().KeyDirectory(private).Encryptor(enc).Storage(st).CacheSize(keystore.WithoutCache)
+	if public != private {
+		b = NewCustomFilesystemKeyStore().KeyDirectories(private, public).Encryptor(enc).Storage(st).CacheSize(keystore.WithoutCache)
+	}
+	ks, err := b.Build()
+	if err != nil {
+		panic("keystore: " + err.Error())
+	}
+	return ks, enc
+}
+
+// VerifC18_V1Backup: keystore v1 KeyBackuper between two key stores under different master keys, one or two key
+// directories. After export + import the target offers the same keys: symmetric keys (with history), the HMAC key,
+// the storage key pair (private keys with history, public key) — for "export all" and for a selection by key id.
+func VerifC18_V1Backup() {
+	twoDirs := verif.Choose("dirs", 1, 2) == 2
+	byID := verif.Choose("selection", 0, 1) == 1
+	src := vfs.New()
+	priv, pub := "/keys", "/keys"
+	if twoDirs {
+		pub = "/pub"
+	}
+	src.MkdirAll(priv, 0700)
+	src.MkdirAll(pub, 0700)
+	ks, enc := verifStoreIn(src, priv, pub, "master")
+	id := []byte("client")
+	verif.Assert(ks.GenerateClientIDSymmetricKey(id) == nil, "generate-sym-1")
+	verif.Assert(ks.GenerateClientIDSymmetricKey(id) == nil, "generate-sym-2")
+	verif.Assert(ks.GenerateHmacKey(id) == nil, "generate-hmac")
+	verif.Assert(ks.GenerateDataEncryptionKeys(id) == nil, "generate-pair-1")
+	verif.Assert(ks.GenerateDataEncryptionKeys(id) == nil, "generate-pair-2")
+	wantSym, err := ks.GetClientIDSymmetricKeys(id)
+	verif.Assert(err == nil && len(wantSym) == 2, "source-symmetric-keys")
+	wantHmac, err1 := ks.GetHMACSecretKey(id)
+	wantPriv, err2 := ks.GetServerDecryptionPrivateKeys(id)
+	wantPub, err3 := ks.GetClientIDEncryptionPublicKey(id)
+	verif.Assert(err1 == nil && err2 == nil && err3 == nil && len(wantPriv) == 2, "source-keys")
+	if err != nil || err1 != nil || err2 != nil || err3 != nil || len(wantSym) != 2 || len(wantPriv) != 2 {
+		return
+	}
+	bk, err := NewKeyBackuper(priv, pub, src, enc, ks)
+	if err != nil {
+		return
+	}
+	var backup *keystore.KeysBackup
+	if byID {
+		backup, err = bk.Export([]keystore.ExportID{
+			{KeyKind: keystore.KeySymmetric, ContextID: id}, {KeyKind: keystore.KeySearch, ContextID: id},
+			{KeyKind: keystore.KeyStoragePrivate, ContextID: id}, {KeyKind: keystore.KeyStoragePublic, ContextID: id}}, keystore.ExportPrivateKeys)
+	} else {
+		backup, err = bk.Export(nil, keystore.ExportAllKeys)
+	}
+	verif.Reach("exported")
+	verif.Assert(err == nil, "export-no-error")
+	if err != nil {
+		return
+	}
+	dst := vfs.New()
+	dst.MkdirAll(priv, 0700)
+	dst.MkdirAll(pub, 0700)
+	ks2, enc2 := verifStoreIn(dst, priv, pub, "master2")
+	bk2, err := NewKeyBackuper(priv, pub, dst, enc2, ks2)
+	if err != nil {
+		return
+	}
+	_, err = bk2.Import(backup)
+	verif.Assert(err == nil, "import-no-error")
+	if err != nil {
+		return
+	}
+	t, _ := verifStoreIn(dst, priv, pub, "master2")
+	verif.Reach("imported")
+	if gotSym, err := t.GetClientIDSymmetricKeys(id); err != nil {
+		verif.Assert(false, "target-has-the-symmetric-keys")
+	} else if byID {
+		// a selection by id carries the current key
+		verif.Assert(len(gotSym) >= 1 && verif.Eq(gotSym[0], wantSym[0]), "target-current-symmetric-key-identical")
+	} else {
+		verif.Assert(len(gotSym) == 2 && verif.Eq(gotSym[0], wantSym[0]) && verif.Eq(gotSym[1], wantSym[1]), "target-symmetric-keys-identical-and-ordered")
+	}
+	if gotHmac, err := t.GetHMACSecretKey(id); err != nil {
+		verif.Assert(false, "target-has-the-hmac-key")
+	} else {
+		verif.Assert(verif.Eq(gotHmac, wantHmac), "target-hmac-key-identical")
+	}
+	if gotPub, err := t.GetClientIDEncryptionPublicKey(id); err != nil {
+		verif.Assert(false, "target-has-the-public-key")
+	} else {
+		verif.Assert(verif.Eq(gotPub.Value, wantPub.Value), "target-public-key-identical")
+	}
+	if gotPriv, err := t.GetServerDecryptionPrivateKeys(id); err != nil {
+		verif.Assert(false, "target-has-the-private-keys")
+	} else if byID {
+		verif.Assert(len(gotPriv) >= 1 && verif.Eq(gotPriv[0].Value, wantPriv[0].Value), "target-current-private-key-identical")
+	} else {
+		verif.Assert(len(gotPriv) == 2 && verif.Eq(gotPriv[0].Value, wantPriv[0].Value) && verif.Eq(gotPriv[1].Value, wantPriv[1].Value), "target-private-keys-identical-and-ordered")
+	}
+	if !byID && twoDirs {
+		// the directory layout is part of what a restore has to reproduce: public files (history included) stay public
+		srcPub, err1 := ReadDir(src, pub)
+		dstPub, err2 := ReadDir(dst, pub)
+		verif.Assert(err1 == nil && err2 == nil && len(srcPub) == len(dstPub), "public-directory-has-the-same-files")
+	}
+}
